@@ -6,7 +6,7 @@ import z3
 from pyvc.values import *   # noqa
 from pyvc.harness import unit, mutate_function, replace_compare
 from pyvc.ctx import Undecided, PathCtx
-from pyvc.interp import Interp, PyExc
+from pyvc.interp import Interp, PyExc, Frame
 from pyvc import source
 
 BAT = 'pysyncobj/batteries.py'
@@ -254,3 +254,78 @@ def lemma_lock():
     out.append(dict(id='C16:L-LOCK.cover.step-hypotheses-satisfiable', unit='lemma.L-LOCK', path='lemma',
                     status='discharged' if s_.check() == z3.sat else 'failed', solver='z3py', secs=0.0, model=None, info=None, line=None))
     return out
+
+
+# ---------------------------------------------------------------- client wrapper: late-acquire check
+@unit(name='lock.tryAcquire', relpath=BAT, qual=['ReplLockManager.tryAcquire'], props=['C16'], cases=[dict(sync=True), dict(sync=False)],
+      doc='a client whose acquisition took longer than half the auto-unlock time is told it failed and a release is submitted; otherwise the '
+          'result of the replicated acquire is passed on unchanged; the timestamp sent is the one read before submitting',
+      assumptions=['A-CLOCK', 'A-REAL'], trusted=['the replicated call itself (C02)'],
+      canaries=[('late-check-dropped', lambda mod: mutate_function(mod, 'ReplLockManager.tryAcquire', _mut_drop_late_check), ['tryAcquire.late-acquisition-reported-as-failure'])])
+def lock_try_acquire(ctx, sync):
+    mod = source.load(BAT)
+    fn, ci = mod.find('ReplLockManager.tryAcquire')
+    if fn is None:
+        raise Undecided('ReplLockManager.tryAcquire not found')
+    T = FreshReal('autoUnlockTime')
+    ctx.assume(T > 0)
+    calls = []
+    clock = [FreshReal('t0')]
+    res = FreshBool('acquireResult')
+
+    def now(I, a, k):
+        t = FreshReal('t')
+        I.ctx.assume(t >= clock[-1])
+        clock.append(t)
+        return t
+
+    def acquire(I, selfv, a, k):
+        calls.append(('acquire', tuple(a), dict(k)))
+        return res if sync else None
+
+    def release(I, selfv, a, k):
+        calls.append(('release', tuple(a), dict(k)))
+    impl = ctx.alloc(PObj('_ReplLockManagerImpl', {}))
+    mgr = ctx.alloc(PObj('ReplLockManager', {'_ReplLockManager__lockImpl': impl, '_ReplLockManager__selfID': 'me', '_ReplLockManager__autoUnlockTime': T}))
+    fired = []
+    I = Interp(ctx, registry={'_ReplLockManagerImpl.acquire': acquire, '_ReplLockManagerImpl.release': release}, externals={'time.time': now},
+               hooks={'call:user': lambda I_, f, a, k: fired.append(tuple(a))})
+    cb = Callable_('user:cb')
+    lid = Opaque('lock', FreshInt('lock'))
+    r = I.call_funcdef(fn, mod, 'ReplLockManager', mgr, [lid], {'sync': sync, 'callback': (None if sync else cb)}, None, 'ReplLockManager.tryAcquire')
+    acq = [c for c in calls if c[0] == 'acquire']
+    ctx.prove(len(acq) == 1 and acq[0][1][0] is lid and acq[0][1][1] == 'me' and acq[0][1][2] is clock[1], 'C16:tryAcquire.submits-one-acquire-stamped-before-submission')
+    if sync:
+        t_att, t_acq = clock[1], clock[2]
+        late = And(res, t_acq - t_att > T / 2)
+        rel = [c for c in calls if c[0] == 'release']
+        ctx.prove(Iff(I.truth_expr(r), And(res, Not(late))), 'C16:tryAcquire.late-acquisition-reported-as-failure')
+        ctx.prove(Implies(late, len(rel) == 1) if len(rel) != 1 else True, 'C16:tryAcquire.late-acquisition-is-released')
+        ctx.prove(Implies(Not(late), len(rel) == 0) if rel else True, 'C16:tryAcquire.no-release-otherwise')
+        return
+    # async: the callback handed to acquire is the closure asyncCallback; run it with an arbitrary result
+    acb = acq[0][2].get('callback') if acq else None
+    from pyvc.interp import FuncVal
+    ctx.prove(isinstance(acb, FuncVal), 'C16:tryAcquire.async-wraps-the-callback')
+    if not isinstance(acb, FuncVal):
+        return
+    n0 = len(clock)
+    I.call(acb, [res, 0], {}, Frame(mod, 'ReplLockManager', 'cb'))
+    rel = [c for c in calls if c[0] == 'release']
+    ctx.prove(len(fired) == 1, 'C16:tryAcquire.user-callback-fired-once')
+    if ctx.decide(res, 'acquired'):
+        t_att, t_acq = clock[1], clock[n0]
+        late = t_acq - t_att > T / 2
+        ctx.prove(Iff(I.truth_expr(fired[0][0]), Not(late)), 'C16:tryAcquire.late-acquisition-reported-as-failure')
+        ctx.prove(Implies(late, len(rel) == 1) if len(rel) != 1 else True, 'C16:tryAcquire.late-acquisition-is-released')
+    else:
+        ctx.prove(And(Not(I.truth_expr(fired[0][0])), len(rel) == 0), 'C16:tryAcquire.failure-passed-on')
+
+
+def _mut_drop_late_check(fn):
+    cnt = 0
+    for n in ast.walk(fn):
+        if isinstance(n, ast.If) and isinstance(n.test, ast.Compare) and any(isinstance(x, ast.Name) and x.id == 'attemptTime' for x in ast.walk(n.test)):
+            n.test = ast.Constant(value=False)
+            cnt += 1
+    return cnt
